@@ -25,6 +25,8 @@ def _match(entry, job, prop):
     m = entry.get('match', {})
     if 'factory' in m and m['factory'] != job['factory']:
         return False
+    if 'expr' in m and not eval(m['expr'], {'params': job['params']}):
+        return False
     for k, v in m.get('params', {}).items():
         jv = job['params'].get(k)
         if isinstance(v, list):
@@ -51,7 +53,7 @@ def make_known_builder(prop):
                 continue
             if isinstance(p, bool):
                 p = z3.BoolVal(p)
-            res.append((e['id'], p))
+            res.append((e['id'], p, e.get('kinds')))
         return res
     return builder
 
